@@ -59,7 +59,7 @@ class Inst(object):
     __slots__ = (
         "token", "tmpl", "vars", "n", "recv", "task", "started", "done", "awaiting", "syncing",
         "ctxs", "nyield", "parent", "outcome", "struct_paths", "depth", "closed", "nstep", "escaped",
-        "start_at", "done_at", "nc", "yield_n0", "shared",
+        "start_at", "done_at", "nc", "yield_n0", "shared", "shared_awaited",
     )
 
     def __init__(self, token, tmpl, args, parent=None):
@@ -83,6 +83,7 @@ class Inst(object):
         self.nc = 0
         self.yield_n0 = 0
         self.shared = False
+        self.shared_awaited = False
         self.start_at = None
         self.done_at = None
         self.depth = 0 if parent is None else parent.depth + 1
